@@ -40,6 +40,7 @@ struct grpatm_payload_s {
 #define GRPATM_TB_SPEC	(64U)
 #define GRPATM_O_SPEC	(128U)
 #define GRPATM_P_SPEC	(256U)
+#define GRPATM_PADDED	(512U)
 	int8_t off_min;
 	int8_t off_max;
 	const char *fmt;
